@@ -377,7 +377,7 @@ void addTecmpOp(Gen& g, int node, bool faulty)
     const int kind = static_cast<int>(r.below(5));
     op.set("kind", kind).set("id", g.msgId());
     op.set("dev", static_cast<int64_t>(r.below(4))).set("ctr", static_cast<int64_t>(r.below(65536))).set("ver", r.pick<int64_t>({2, 3}));
-    op.set("ifid", static_cast<int64_t>(r.below(50))).set("ts", static_cast<int64_t>(g.pickTs()));
+    op.set("ifid", r.chance(1, 6) ? r.pick<int64_t>({0, 1, 0xFFFFFFFF, 0x80000000, 0x7FFFFFFF}) : static_cast<int64_t>(r.below(50))).set("ts", static_cast<int64_t>(g.pickTs()));
     if (r.chance(1, 2))
         op.set("xflags", r.chance(1, 2) ? (1LL << r.below(16)) : static_cast<int64_t>(r.below(65536))).set("dflags", static_cast<int64_t>(r.below(65536)));
     switch (kind)
@@ -394,6 +394,12 @@ void addTecmpOp(Gen& g, int node, bool faulty)
             break;
         case 4:
             op.set("mtype", 2).set("dtype", 0).set("n", static_cast<int64_t>(r.below(41)));
+            if (r.chance(1, 3))
+            {
+                op.set("eidv", static_cast<int64_t>(r.below(64))).set("eidk", static_cast<int64_t>(r.below(41)));
+                if (r.chance(1, 4))
+                    op.set("eidall", 1);
+            }
             break;
         default:
             op.set("mtype", static_cast<int64_t>(r.below(256))).set("dtype", r.pick<int64_t>({0, 1, 2, 3, 4, 5, 8, 0x10, 0x20, 0x80, 0xFF, 0xFF00, static_cast<int64_t>(r.below(65536))}));
@@ -685,7 +691,18 @@ Plan genHostile(const std::string& prop, int tier, uint64_t batchSeed, uint64_t 
                 op.set("trail", r.range(1, 30)).set("tfill", static_cast<int64_t>(r.below(3)));
         }
         else if (sel < 80 && enTecmp)
+        {
             addTecmpOp(g, tecmpNode, r.chance(1, 2));
+            if (r.chance(1, 4))
+            {
+                // read as a capture-module header, this TECMP frame names one of the endpoints of the run (its counter sits in the
+                // device-id bytes, its message type in the stream-id byte) - whatever becomes of the frame, that endpoint's
+                // reassembly must not notice
+                const size_t a = r.below(nNodes);
+                Item& top = g.plan.items.back();
+                top.set("ctr", eps[a].first).set("mtype", eps[a].second);
+            }
+        }
         else if (sel < 90 && enNoise)
         {
             Item& op = g.addOp(OP_NOISE, noiseNode, 1);
@@ -783,6 +800,11 @@ Plan genWire(const std::string& prop, int tier, uint64_t batchSeed, uint64_t idx
         if (r.chance(1, 5))
             op.set("rsv", static_cast<int64_t>(r.below(256)));
         size_t nm = r.chance(1, 10) ? 0 : 1 + r.below(8);
+        // one frame in twenty-five holds MANY messages (a jumbo or reassembled capture): 60..400, with counts around
+        // 64 / 93 / 128 / 256 favoured - per-frame containers of the receiver grow and move while earlier packets are out
+        const bool manyMsgs = r.chance(1, 25);
+        if (manyMsgs)
+            nm = r.chance(1, 2) ? static_cast<size_t>(r.pick<int64_t>({64, 93, 128, 256}) + r.range(-2, 3)) : 60 + r.below(341);
         size_t total = 8;
         // one frame in thirty is a jumbo frame: several large messages, more than 64 KiB in total
         const bool jumbo = r.chance(1, 30);
@@ -823,6 +845,8 @@ Plan genWire(const std::string& prop, int tier, uint64_t batchSeed, uint64_t idx
                     break;
             }
             len = std::max<int64_t>(0, len);
+            if (manyMsgs && len > static_cast<int64_t>(minLenOf(kind)) + 12)
+                len = static_cast<int64_t>(minLenOf(kind)) + r.range(0, 12);
             if (total + 16 + static_cast<size_t>(len) > frameLimit)
                 len = static_cast<int64_t>(minLenOf(kind));
             total += 16 + static_cast<size_t>(len);
